@@ -142,6 +142,7 @@ func checkC20(c *Ctx) {
 	c.ruleGoCapturesLoopVar("C20-R5")
 	c.ruleStoreWritesExclusive("C20-R6")
 	c.ruleElementsFilledUnderContainerLock("C20-R7")
+	c.ruleRegisteredBeforeServed("C20-R8")
 
 	// R3
 	ru3 := c.R.Rule("C20-R3", "no check-then-act across a lock gap: when a function releases a monitor's lock and takes it again, a write to a guarded member in the later critical section is preceded, in that same section, by a fresh read of that member", "E5 critical-section structure", 1)
@@ -238,15 +239,38 @@ func checkC20(c *Ctx) {
 				}
 				n++
 				escapes := false
-				if ld.Referrers() != nil {
-					for _, r := range *ld.Referrers() {
+				// the loaded container and everything that still shares its storage: re-slices (s[:n:n] included), type
+				// changes, φs
+				aliases := []ssa.Value{ld}
+				seenAl := map[ssa.Value]bool{ld: true}
+				for i := 0; i < len(aliases); i++ {
+					av := aliases[i]
+					if av.Referrers() == nil {
+						continue
+					}
+					for _, r := range *av.Referrers() {
 						switch u := r.(type) {
 						case *ssa.Return:
 							escapes = true
 						case *ssa.Store:
 							// spilled result (defer): a store into a local that is returned
-							if al, ok := u.Addr.(*ssa.Alloc); ok && u.Val == ssa.Value(ld) && al.Comment == "" {
+							if al, ok := u.Addr.(*ssa.Alloc); ok && u.Val == av && al.Comment == "" {
 								escapes = true
+							}
+						case *ssa.Slice:
+							if u.X == av && !seenAl[u] {
+								seenAl[u] = true
+								aliases = append(aliases, u)
+							}
+						case *ssa.ChangeType:
+							if !seenAl[u] {
+								seenAl[u] = true
+								aliases = append(aliases, u)
+							}
+						case *ssa.Phi:
+							if !seenAl[u] {
+								seenAl[u] = true
+								aliases = append(aliases, u)
 							}
 						}
 					}
